@@ -18,32 +18,56 @@ import LA.Gen.UuTables
 namespace LA.UuRead
 open LA.Gen.UuTables
 
+/-! The four lookup tables of the C are extracted into `LA.Gen.UuTables`.  The
+model uses closed forms of them (constant time, and arithmetic the proofs can
+work with); `cls_table`, `uuchar_table`, `b64ok_table`, `b64num_table` below
+prove that the extracted tables are exactly the closed forms tabulated, so a
+change of a table in the C breaks the build of this file. -/
+
 /-- `ascii[c]`: 0 = control / non-ASCII, 10 / 13 = the two line terminators, 1 = printable. -/
-def cls (c : Nat) : Nat := asciiTab.getD c 0
+def cls (c : Nat) : Nat :=
+  if c = 10 then 10 else if c = 13 then 13 else if 32 ≤ c ∧ c ≤ 126 then 1 else 0
 /-- `uuchar[c]` -/
-def uuchar (c : Nat) : Bool := uucharTab.getD c 0 != 0
-/-- `base64[c]` (the 256-entry membership table of the read filter) -/
-def b64ok (c : Nat) : Bool := base64Tab.getD c 0 != 0
-/-- `base64num[c]`: a 128-entry table indexed by an `unsigned char`. -/
-def b64num (c : Nat) : Option Nat := base64numTab[c]?
+def uuchar (c : Nat) : Bool := 32 ≤ c && c ≤ 96
+/-- `base64[c]` (the 256-entry membership table of the read filter; note that it includes `'='`) -/
+def b64ok (c : Nat) : Bool :=
+  (65 ≤ c && c ≤ 90) || (97 ≤ c && c ≤ 122) || (48 ≤ c && c ≤ 57) || c == 43 || c == 47 || c == 61
+/-- `base64num[c]`: a 128-entry table indexed by an `unsigned char` (`none`: outside the table). -/
+def b64num (c : Nat) : Option Nat :=
+  if 128 ≤ c then none
+  else if 65 ≤ c ∧ c ≤ 90 then some (c - 65)
+  else if 97 ≤ c ∧ c ≤ 122 then some (c - 71)
+  else if 48 ≤ c ∧ c ≤ 57 then some (c + 4)
+  else if c = 43 then some 62 else if c = 47 then some 63 else some 0
+
+set_option maxRecDepth 4000 in
+theorem cls_table : asciiTab = (List.range 256).map cls := by decide
+set_option maxRecDepth 4000 in
+theorem uuchar_table : uucharTab = (List.range 256).map (fun c => if uuchar c then 1 else 0) := by decide
+set_option maxRecDepth 4000 in
+theorem b64ok_table : base64Tab = (List.range 256).map (fun c => if b64ok c then 1 else 0) := by decide
+set_option maxRecDepth 4000 in
+theorem b64num_table : base64numTab.map some = (List.range 128).map b64num ∧ b64num 128 = none := by decide
+
 /-- `UUDECODE(c)` = `((c) - 0x20) & 0x3f`; `(c - 32) mod 64 = (c + 32) mod 64`. -/
 def udec (c : Nat) : Nat := (c + 32) % 64
 
-/-- `get_line(b, avail, &nlsize)`: length of the first line including its
+/-- `get_line(b, avail, &nlsize)` (`b` is the memory from the pointer on, of which
+`avail` bytes may be looked at): length of the first line including its
 terminator (`none` = -1: a character of class 0), and the terminator's size
-(0 = the buffer ended first, then the length is `avail`). -/
-def getLine : List Nat → Option Nat × Nat
-  | [] => (some 0, 0)
-  | c :: rest =>
+(0 = `avail` bytes were scanned without finding one; the length is then `avail`). -/
+def getLine : Nat → List Nat → Option Nat × Nat
+  | 0, _ => (some 0, 0)
+  | _ + 1, [] => (some 0, 0)           -- not reached: `avail` never exceeds the buffer
+  | a + 1, c :: rest =>
     match cls c with
     | 0 => (none, 0)
     | 13 =>
-      match rest with
-      | 10 :: _ => (some 2, 2)          -- `avail-len > 1 && b[1] == '\n'`
-      | _ => (some 1, 1)                -- FALL THROUGH
+      if a > 0 ∧ rest.head? = some 10 then (some 2, 2)     -- `avail-len > 1 && b[1] == '\n'`
+      else (some 1, 1)                                      -- FALL THROUGH
     | 10 => (some 1, 1)
     | _ =>
-      match getLine rest with
+      match getLine a rest with
       | (some n, nl) => (some (n + 1), nl)
       | (none, nl) => (none, nl)
 
@@ -219,7 +243,8 @@ def LoopR.cons (o : List Nat) : LoopR → LoopR
   | .fin used carry ph out md => .fin used carry ph (o ++ out) md
   | r => r
 
-theorem getLine_pos (c : Nat) (rest : List Nat) (n nl : Nat) (h : getLine (c :: rest) = (some n, nl)) : 0 < n := by
+theorem getLine_pos (a c : Nat) (rest : List Nat) (n nl : Nat)
+    (h : getLine (a + 1) (c :: rest) = (some n, nl)) : 0 < n := by
   unfold getLine at h
   split at h
   · simp at h
@@ -229,15 +254,17 @@ theorem getLine_pos (c : Nat) (rest : List Nat) (n nl : Nat) (h : getLine (c :: 
 
 /-- The line loop.  `ravail` is the size of the upstream window of this call,
 `tot0` is `uudecode->total` at entry, `total` the bytes produced so far in this
-call (`out` is assembled on the way back), `rest` is `d .. in_buff/avail_in end`. -/
-def lineLoop (ravail tot0 : Nat) (rest : List Nat) (used total : Nat) (ph : Phase) (md : Meta) : LoopR :=
-  match hr : rest with
-  | [] => .fin used [] ph [] md
-  | c :: tl =>
-    match hg : getLine (c :: tl) with
+call (`out` is assembled on the way back), `rest` is the memory from `d` on and
+`avail = avail_in - used` the part of it that holds data. -/
+def lineLoop (ravail tot0 : Nat) (avail : Nat) (rest : List Nat) (used total : Nat) (ph : Phase) (md : Meta) : LoopR :=
+  match hr : avail, rest with
+  | 0, _ => .fin used [] ph [] md
+  | _ + 1, [] => .fin used [] ph [] md          -- not reached (`avail ≤ rest.length`)
+  | a + 1, c :: tl =>
+    match hg : getLine (a + 1) (c :: tl) with
     | (none, _) =>
       -- "Non-ascii character is found."
-      if ph = .findHead ∧ (tot0 > 0 ∨ total > 0) then .fin (used + rest.length) [] .ignore [] md
+      if ph = .findHead ∧ (tot0 > 0 ∨ total > 0) then .fin (used + avail) [] .ignore [] md
       else .fatal
     | (some len, nl) =>
       if nl = 0 ∧ (ph ≠ .uuEnd ∨ ravail > 0) then
@@ -247,7 +274,7 @@ def lineLoop (ravail tot0 : Nat) (rest : List Nat) (used total : Nat) (ph : Phas
       else
         let b := rest.take len
         let next (ph' : Phase) (o : List Nat) (md' : Meta) : LoopR :=
-          LoopR.cons o (lineLoop ravail tot0 (rest.drop len) (used + len) (total + o.length) ph' md')
+          LoopR.cons o (lineLoop ravail tot0 (avail - len) (rest.drop len) (used + len) (total + o.length) ph' md')
         match ph with
         | .readUU =>
           if total + len * 2 > outBuffSize then .fin used [] ph [] md      -- `goto finish`
@@ -272,11 +299,10 @@ def lineLoop (ravail tot0 : Nat) (rest : List Nat) (used total : Nat) (ph : Phas
           else
             let r := headLine b nl md
             next r.1 [] r.2
-termination_by rest.length
+termination_by avail
 decreasing_by
   all_goals
-    have hp := getLine_pos c tl len nl hg
-    simp [hr]
+    have hp := getLine_pos a c tl len nl hg
     omega
 
 inductive CallR
@@ -295,7 +321,7 @@ def filterRead (st : RState) (w : List Nat) : CallR :=
   else if st.carry ≠ [] ∧ st.carry.length > maxLineLength then .fatal     -- "Invalid format data"
   else
     let buf := st.carry ++ w
-    match lineLoop ravail st.total buf 0 0 st.phase st.md with
+    match lineLoop ravail st.total buf.length buf 0 0 st.phase st.md with
     | .fatal => .fatal
     | .oob => .oob
     | .more carry ph md => .more { phase := ph, carry := carry, total := st.total, md := md }
@@ -372,11 +398,19 @@ inductive Ans
   | fatal                  -- NULL, `*avail < 0`
   deriving DecidableEq, Repr
 
+/-- The bidder's cursor.  `b` is the stream from the pointer `b` on (all of it:
+what may be looked at is its first `ravail - off` bytes, `*avail` in the C). -/
 structure BidSt (σ : Type) where
   up : σ               -- upstream filter
+  b : List Nat
   off : Nat            -- `b` as an offset from the start of the stream (`*ravail - *avail`)
   ravail : Nat         -- `*ravail`
   nread : Nat          -- `*nbytes_read`
+
+def BidSt.avail {σ : Type} (st : BidSt σ) : Nat := st.ravail - st.off
+
+/-- `b[i]` for a read that must stay inside the `avail` visible bytes. -/
+def rd (b : List Nat) (avail i : Nat) : Option Nat := if i < avail then b[i]? else none
 
 inductive GL (σ : Type)
   | line (len : Option Nat) (nl : Nat) (bnull : Bool) (st : BidSt σ)   -- `bnull`: `*b` was left NULL
@@ -388,19 +422,20 @@ def nbytesReq (ravail : Nat) : Nat :=
   if r < ravail + 160 then r * 2 else r
 
 /-- The `while` loop of `bid_get_line` (as repaired: it also looks further when a
-complete line ends together with the available bytes). -/
-def bidLoop {σ : Type} (S : List Nat) (ahead : σ → Nat → Ans × σ)
+complete line ends together with the available bytes).  `slen` is the length of
+the whole stream (bounds what a well-behaved upstream can answer). -/
+def bidLoop {σ : Type} (slen : Nat) (ahead : σ → Nat → Ans × σ)
     (st : BidSt σ) (len : Option Nat) (nl : Nat) : GL σ :=
-  if len = some (st.ravail - st.off) ∧ st.nread < bidMaxRead then
+  if len = some st.avail ∧ st.nread < bidMaxRead then
     match ahead st.up (nbytesReq st.ravail) with
     | (.window v, up') =>
-      if h : st.ravail < v ∧ v ≤ S.length then
-        let st' : BidSt σ := { up := up', off := st.off, ravail := v, nread := v }
+      if h : st.ravail < v ∧ v ≤ slen then
+        let st' : BidSt σ := { st with up := up', ravail := v, nread := v }
         if nl ≠ 0 then .line len nl false st'                 -- "The line was complete already."
         else
           let tested := len.getD 0
-          let r := getLine (((S.take v).drop (st.off + tested)))
-          bidLoop S ahead st' (r.1.map (· + tested)) r.2
+          let r := getLine (st'.avail - tested) (st.b.drop tested)
+          bidLoop slen ahead st' (r.1.map (· + tested)) r.2
       else .stuck
     | (.fatal, up') => .line (some 0) 0 true { st with up := up' }
     | (.short a, up') =>
@@ -410,22 +445,21 @@ def bidLoop {σ : Type} (S : List Nat) (ahead : σ → Nat → Ans × σ)
         match ahead up' a with
         | (.window v, up'') =>
           if v < st.off then .stuck else
-          let st' : BidSt σ := { up := up'', off := st.off, ravail := v, nread := v }
+          let st' : BidSt σ := { st with up := up'', ravail := v, nread := v }
           if nl ≠ 0 then .line len nl false st'
           else
             let tested := len.getD 0
-            let r := getLine (((S.take v).drop (st.off + tested)))
+            let r := getLine (st'.avail - tested) (st.b.drop tested)
             .line (r.1.map (· + tested)) r.2 false st'
         | _ => .stuck
   else .line len nl false st
-termination_by S.length - st.ravail
+termination_by slen - st.ravail
 decreasing_by omega
 
 /-- `bid_get_line(filter, &b, &avail, &ravail, &nl, &nbytes_read)` -/
-def bidGetLine {σ : Type} (S : List Nat) (ahead : σ → Nat → Ans × σ) (st : BidSt σ) : GL σ :=
-  let avail := st.ravail - st.off
-  let r := if avail = 0 then (some 0, 0) else getLine ((S.take st.ravail).drop st.off)
-  bidLoop S ahead st r.1 r.2
+def bidGetLine {σ : Type} (slen : Nat) (ahead : σ → Nat → Ans × σ) (st : BidSt σ) : GL σ :=
+  let r := if st.avail = 0 then (some 0, 0) else getLine st.avail st.b
+  bidLoop slen ahead st r.1 r.2
 
 /-- Which `begin` line, if any: the checks shared by the bidder's first loop. -/
 def beginKind (line : List Nat) (nl : Nat) : Nat :=
@@ -443,11 +477,15 @@ inductive Bid
   | stuck
   deriving DecidableEq, Repr
 
+/-- Move `b` forward by `n` bytes. -/
+def BidSt.skip {σ : Type} (st : BidSt σ) (n : Nat) : BidSt σ :=
+  { st with b := st.b.drop n, off := st.off + n }
+
 /-- The part of `uudecode_bidder_bid` after the `begin` line has been found:
-`l` is 6 or 13, `st.off` is the start of the next line. -/
-def bidTail {σ : Type} (S : List Nat) (ahead : σ → Nat → Ans × σ) (st : BidSt σ) (l firstline : Nat) : Bid × σ :=
-  if st.ravail - st.off = 0 then (.bid 0, st.up)            -- `if (!avail) return (0);`
-  else match bidGetLine S ahead st with
+`l` is 6 or 13, `st.b` is the start of the next line. -/
+def bidTail {σ : Type} (slen : Nat) (ahead : σ → Nat → Ans × σ) (st : BidSt σ) (l firstline : Nat) : Bid × σ :=
+  if st.avail = 0 then (.bid 0, st.up)            -- `if (!avail) return (0);`
+  else match bidGetLine slen ahead st with
   | .stuck => (.stuck, st.up)
   | .line len nl _ st =>
     match len with
@@ -455,76 +493,75 @@ def bidTail {σ : Type} (S : List Nat) (ahead : σ → Nat → Ans × σ) (st : 
     | some len =>
       if nl = 0 then (.bid 0, st.up)                        -- "There are non-ascii characters."
       else
-        let win := S.take st.ravail
-        let avail := st.ravail - st.off - len      -- `avail -= len`
-        let b := st.off
+        let vis := st.avail                 -- bytes that may be read from `st.b`
+        let avail := st.avail - len         -- `avail -= len`
+        let b := st.b
         if l = 6 then
-          match win[b]? with
+          match rd b vis 0 with
           | none => (.oob, st.up)
           | some c =>
             if !uuchar c then (.bid 0, st.up)
             else
               let l := udec c
               let len := len - 1
-              let b := b + 1
               if l = 0 ∧ len = nl then
                 -- an encoded empty file: the next line must be "end"
-                match bidGetLine S ahead { st with off := b + nl } with
+                match bidGetLine slen ahead (st.skip (1 + nl)) with
                 | .stuck => (.stuck, st.up)
                 | .line len3 nl3 bnull st3 =>
                   match len3 with
                   | some n3 =>
-                    if n3 - nl3 = 3 ∧ n3 ≥ nl3 ∧ ((S.take st3.ravail).drop st3.off).take 3 = [101, 110, 100] then (.bid (firstline + 30), st3.up)
+                    if n3 - nl3 = 3 ∧ n3 ≥ nl3 ∧ st3.b.take 3 = [101, 110, 100] then (.bid (firstline + 30), st3.up)
                     else if n3 ≠ 0 then
                       (if bnull then (.oob, st3.up) else
-                       match (S.take st3.ravail)[st3.off]? with
+                       match rd st3.b st3.avail 0 with
                        | none => (.oob, st3.up)
                        | some c3 => if uuchar c3 then (.bid (firstline + 30), st3.up) else (.bid 0, st3.up))
                     else (.bid 0, st3.up)
                   | none =>
-                    match (S.take st3.ravail)[st3.off]? with
+                    match rd st3.b st3.avail 0 with
                     | none => (.oob, st3.up)
                     | some c3 => if uuchar c3 then (.bid (firstline + 30), st3.up) else (.bid 0, st3.up)
               else if l > 45 then (.bid 0, st.up)
               else if l > len - nl then (.bid 0, st.up)
               else
                 -- `while (l) { if (!uuchar[*b++]) return (0); --len; --l; }`
-                let chars := (win.drop b).take l
-                if chars.length < l then (.oob, st.up)
+                let chars := (b.drop 1).take l
+                if chars.length < l ∨ vis < 1 + l then (.oob, st.up)
                 else if chars.any (fun c => !uuchar c) then (.bid 0, st.up)
                 else
-                  let b := b + l
+                  let i := 1 + l
                   let len := len - l
-                  match win[b]? with
+                  match rd b vis i with
                   | none => (.oob, st.up)
                   | some c1 =>
                     let skip := len - nl = 1 ∧ (uuchar c1 ∨ (97 ≤ c1 ∧ c1 ≤ 122))
-                    let b := (if skip then b + 1 else b) + nl
+                    let i := (if skip then i + 1 else i) + nl
                     if avail = 0 then (.bid 0, st.up)
-                    else match win[b]? with
+                    else match rd b vis i with
                       | none => (.oob, st.up)
                       | some c2 => if uuchar c2 then (.bid (firstline + 30), st.up) else (.bid 0, st.up)
         else
           -- "begin-base64 "
           let body := len - nl
-          if body = 4 ∧ (win.drop b).take 4 = [61, 61, 61, 61] then (.bid (firstline + 40), st.up)
+          if body = 4 ∧ b.take 4 = [61, 61, 61, 61] then (.bid (firstline + 40), st.up)
           else
-            let chars := (win.drop b).take body
-            if chars.length < body then (.oob, st.up)
+            let chars := b.take body
+            if chars.length < body ∨ vis < body then (.oob, st.up)
             else if chars.any (fun c => !b64ok c) then (.bid 0, st.up)
             else
-              let b := b + body + nl
-              if avail ≥ 5 ∧ (win.drop b).take 5 = [61, 61, 61, 61, 10] then (.bid (firstline + 40), st.up)
-              else if avail ≥ 6 ∧ (win.drop b).take 6 = [61, 61, 61, 61, 13, 10] then (.bid (firstline + 40), st.up)
+              let i := body + nl
+              if avail ≥ 5 ∧ (b.drop i).take 5 = [61, 61, 61, 61, 10] then (.bid (firstline + 40), st.up)
+              else if avail ≥ 6 ∧ (b.drop i).take 6 = [61, 61, 61, 61, 13, 10] then (.bid (firstline + 40), st.up)
               else if avail > 0 then
-                match win[b]? with
+                match rd b vis i with
                 | none => (.oob, st.up)
                 | some c => if b64ok c then (.bid (firstline + 30), st.up) else (.bid 0, st.up)
               else (.bid 0, st.up)
 
 /-- The `for (;;)` loop of `uudecode_bidder_bid` looking for a `begin` line. -/
-def bidFind {σ : Type} (S : List Nat) (ahead : σ → Nat → Ans × σ) (st : BidSt σ) (firstline : Nat) : Bid × σ :=
-  match bidGetLine S ahead st with
+def bidFind {σ : Type} (slen : Nat) (ahead : σ → Nat → Ans × σ) (st : BidSt σ) (firstline : Nat) : Bid × σ :=
+  match bidGetLine slen ahead st with
   | .stuck => (.stuck, st.up)
   | .line len nl _ st' =>
     match len with
@@ -532,22 +569,22 @@ def bidFind {σ : Type} (S : List Nat) (ahead : σ → Nat → Ans × σ) (st : 
     | some len =>
       if nl = 0 then (.bid 0, st'.up)                        -- "No match found."
       else
-        let line := ((S.take st'.ravail).drop st'.off).take len
+        let line := st'.b.take len
         let l := beginKind line nl
-        let st2 : BidSt σ := { st' with off := st'.off + len }
-        if l ≠ 0 then bidTail S ahead st2 l firstline
+        let st2 := st'.skip len                               -- `b += len; avail -= len;`
+        if l ≠ 0 then bidTail slen ahead st2 l firstline
         else if st'.nread ≥ bidMaxRead then (.bid 0, st'.up)
-        else if h : 0 < len ∧ st'.off + len ≤ S.length ∧ st.off ≤ st'.off then bidFind S ahead st2 0
+        else if h : 0 < len ∧ st'.off + len ≤ slen ∧ st.off ≤ st'.off then bidFind slen ahead st2 0
         else (.stuck, st'.up)
-termination_by S.length - st.off
-decreasing_by omega
+termination_by slen - st.off
+decreasing_by simp only [BidSt.skip]; omega
 
 /-- `uudecode_bidder_bid`: `S` is the whole stream the upstream filter can deliver. -/
 def bid {σ : Type} (S : List Nat) (ahead : σ → Nat → Ans × σ) (up : σ) : Bid × σ :=
   match ahead up 1 with
   | (.window v, up') =>
     if v = 0 ∨ v > S.length then (.stuck, up')
-    else bidFind S ahead { up := up', off := 0, ravail := v, nread := v } 20
+    else bidFind S.length ahead { up := up', b := S, off := 0, ravail := v, nread := v } 20
   | (_, up') => (.bid 0, up')
 
 /-- An upstream that answers from a script of "extra bytes beyond the request"
